@@ -248,6 +248,11 @@ def _execute(plan, tr):
             if len(hdrs) > 1:
                 fail("V3", "mixed_splits_accepted", "recover_mnemonic returned from shares of splits with different identifier/threshold/count/length")
                 return
+            # shares of different splits with identical headers (identifier collision, here forced through the RNG seam): no single split
+            # holds every genuine share text that was handed in -> the set is a mixture and must not be accepted, whatever it returns
+            if only_genuine and not single_split and len(by_split) > 1:
+                fail("V3", "mixed_same_header_splits_accepted", f"recover_mnemonic returned from a list mixing shares of {len(by_split)} different splits that carry the same identifier, threshold and count ({len(collected)} shares)")
+                return
             # which split can this be?
             cands = [s for s in by_split if len(by_split[s]) >= splits[s]["spec"]["k"]]
             ok_pw = plan.get("recover_pass") is None
